@@ -26,6 +26,20 @@ Definition s_xmlns : name := [120; 109; 108; 110; 115]. (* xmlns *)
 Definition uri_xml : name := [104; 116; 116; 112; 58; 47; 47; 119; 119; 119; 46; 119; 51; 46; 111; 114; 103; 47; 88; 77; 76; 47; 49; 57; 57; 56; 47; 110; 97; 109; 101; 115; 112; 97; 99; 101]. (* http://www.w3.org/XML/1998/namespace *)
 Definition uri_xmlns : name := [104; 116; 116; 112; 58; 47; 47; 119; 119; 119; 46; 119; 51; 46; 111; 114; 103; 47; 50; 48; 48; 48; 47; 120; 109; 108; 110; 115; 47]. (* http://www.w3.org/2000/xmlns/ *)
 
+(** ** Attribute-value normalisation (XML 1.0 section 3.3.3, CDATA attributes -- namespace declarations are CDATA unless
+    a DTD says otherwise): the value as written is a sequence of literal characters (after end-of-line handling, 2.11) and
+    of characters that came from a character reference or a predefined entity reference; a literal white space character
+    (#x20, #xD, #xA, #x9) becomes #x20, a referenced character is taken as it is (text of an internal entity counts as
+    literal).  The namespace name a declaration binds is this normalised value. *)
+Inductive avitem := AvLit (c : N) | AvRef (c : N).
+Definition is_ws (c : N) : bool := N.eqb c 32 || N.eqb c 9 || N.eqb c 10 || N.eqb c 13.
+Fixpoint spec_norm (l : list avitem) : name :=
+  match l with
+  | [] => []
+  | AvLit c :: r => (if is_ws c then 32 else c) :: spec_norm r
+  | AvRef c :: r => c :: spec_norm r
+  end.
+
 (** ** In-scope namespaces *)
 (** a declaration: prefix ([] = the default namespace) and namespace name ([] = un-declaration) *)
 Definition decl := (name * name)%type.
